@@ -155,7 +155,8 @@ def run(ctx, rep):
         stn = [n for n in cfg.live_nodes() if n.kind == "for_init" and n.ast is st[0]][0]
         rep.check(cfg.dominates(mwn.id, stn.id), "R3", key(f, None, "middleware runs before the strategies"), f, st[0])
         for lp, nm in ((mw[0], "middleware"), (st[0], "strategy")):
-            rep.check(not loop_body_exits_early(lp) and not walk_nodes(lp.body, (ast.Continue, ast.Raise)), "R3",
+            rep.check(not loop_body_exits_early(lp) and not walk_nodes(lp.body, ast.Raise) and
+                      (nm == "strategy" or not walk_nodes(lp.body, ast.Continue)), "R3",
                       key(f, None, "%s loop cannot be left early" % nm), f, lp)
         rep.check(not walk_nodes(ob.body, (ast.Break, ast.Return)), "R3",
                   key(f, None, "per-book loop has no break / return"), f, ob)
@@ -167,21 +168,36 @@ def run(ctx, rep):
                 gs = [(utext(g.exprs[0]), pol) for g, pol in cfgc.guards(n.id)]
                 rep.check(("market_book.status == 'CLOSED'", True) in gs, "R3",
                           key(f, None, "an update is skipped only when it closes the market"), f, n.ast, str(gs))
-    # other dispatchers: once per strategy, no early exit
+    # other dispatchers: once per strategy, no early exit; the call may be suppressed only by the strategy's own
+    # subscription / its own orders / its own check (an early `continue` under one of these is the same thing)
+    from sa.kinds import guard_pairs
+    allowed = {
+        "BaseFlumine._process_current_orders": {("market.blotter.active", True), ("market.closed is False", True), ("strategy_orders", True)},
+        "FlumineSimulation._process_simulated_orders": {("strategy_orders", True)},
+        "BaseFlumine._process_raw_data": {("stream_id in strategy.stream_ids", True)},
+        "BaseFlumine._process_sports_data": {("sports_data.streaming_unique_id in strategy.stream_ids", True)},
+    }
     for q, cb, wrapper in (("BaseFlumine._process_current_orders", "process_orders", "call_process_orders_error_handling"),
                            ("FlumineSimulation._process_simulated_orders", "process_orders", "call_process_orders_error_handling"),
                            ("BaseFlumine._process_raw_data", "process_raw_data", "call_process_raw_data"),
                            ("BaseFlumine._process_sports_data", "process_sports_data", "call_strategy_error_handling")):
         cn, mn = q.split(".")
         f = prog.own_method(cn, mn)
+        cfgd = ctx.cfg(f)
         st = [lp for lp in walk_nodes(f.node.body, ast.For) if utext(lp.iter) == "self.strategies"]
-        ok = len(st) == 1 and not loop_body_exits_early(st[0]) and not walk_nodes(st[0].body, (ast.Continue, ast.Raise))
+        ok = len(st) == 1 and not loop_body_exits_early(st[0]) and not walk_nodes(st[0].body, ast.Raise)
+        why = ""
         if ok:
             calls = [c for c in walk_calls(st[0].body) if call_name(c) == wrapper]
             if cb == "process_sports_data":
                 calls = [c for c in calls if utext(c.args[0]).endswith(".process_sports_data")]
             ok = len(calls) == 1
-        rep.check(ok, "R3", key(f, None, "%s dispatched once per strategy, loop cannot be left early" % cb), f)
+            if ok:
+                n = [x for x in cfgd.live_nodes() if calls[0] in walk_calls(x.exprs)][0]
+                gs = {g for g in guard_pairs(cfgd, n.id) if not g[0].startswith("utils.call_strategy_error_handling(strategy.check_")}
+                ok = gs == allowed[q]
+                why = "guards: %s" % sorted(gs)
+        rep.check(ok, "R3", key(f, None, "%s dispatched once per strategy, loop cannot be left early" % cb), f, None, why)
 
     # ------------------------------------------------------------------ R4 copy discipline
     copy_discipline(ctx, rep, "R4")
